@@ -26,6 +26,7 @@ func init() {
 		NotDecided: "equality of the unpacked tree; xattr/device semantics of the OS; gnu-tar and mtree writers; symlink times.",
 		Rules: []rule{
 			{"C05.digest-flag", "the SHA512/256 index flag is derived from the digest in use only", 3, c05DigestFlag},
+			{"C05.wrapper-order", "a wrapping writer (tar, bufio) is flushed/closed before the writer underneath it is closed", 1, func(c *Ctx) { c.wrapperOrder() }},
 			{"C05.string-terminator", "readString takes exactly the one terminating byte off a string element", 1, c05StringTerminator},
 			{"C05.codec-agree", "encoder/decoder field tables agree; element types exhaustive", 17, c05Codec},
 			{"C05.mode-tables", "mode <-> st_mode conversions are mutual inverses", 1, c05ModeTables},
